@@ -234,7 +234,11 @@ func (r *replayer) run(rc *replayCase, jsonPath string) (string, error) {
 		dir = filepath.Join(r.ld.RepoDir, "cmd/hranoprovod-cli")
 		pkgArg = "./" + strings.TrimPrefix(strings.TrimPrefix(rel, "cmd/hranoprovod-cli"), "/")
 	}
-	cmd := exec.Command("go", "test", "-v", "-vet=off", "-count=1", "-overlay", ov, "-run", "^TestVerifReplay$", "-timeout", "300s", pkgArg)
+	deadline := "300s"
+	if rc.Assert == "terminates" {
+		deadline = "45s" // a run that does not end is what is being reproduced
+	}
+	cmd := exec.Command("go", "test", "-v", "-vet=off", "-count=1", "-overlay", ov, "-run", "^TestVerifReplay$", "-timeout", deadline, pkgArg)
 	cmd.Dir = dir
 	cmd.Env = append(append([]string{}, r.ld.Env...), "VERIF_REPLAY="+jsonPath, "VERIF_FUNC="+fn, "VERIF_EXPECT="+rc.Expect, fmt.Sprintf("VERIF_ATTEMPTS=%d", rc.Attempts))
 	t0 := time.Now()
